@@ -80,6 +80,18 @@ func HandleInsertStmt(p *InsertPlan, stmt *ast.InsertStmt) error {
 
 	// 全局表直接生成 SQL 返回
 	if isGlobalTable {
+		// only one table is written: drop db and table qualifiers of the column names
+		// (as handleInsertColumnNames / handleInsertOnDuplicate do for sharded tables), a
+		// logical db name must not reach the physical database
+		for _, col := range p.stmt.Columns {
+			removeSchemaAndTableInfoInColumnName(col)
+		}
+		for _, a := range p.stmt.Setlist {
+			removeSchemaAndTableInfoInColumnName(a.Column)
+		}
+		for _, a := range p.stmt.OnDuplicate {
+			removeSchemaAndTableInfoInColumnName(a.Column)
+		}
 		if err := generateGlobalShardingSQLs(p); err != nil {
 			return fmt.Errorf("generate global table sharding sqls error: %v", err)
 		}
